@@ -210,7 +210,9 @@ def step_modelrun(ctx):
 
 
 def run_model(mode, cases, batch_timeout=900):
-    """same protocol as pvh; the model runner needs an unlimited stack (Coq list functions are not tail recursive)"""
+    """same protocol as pvh; the model runner needs an unlimited stack (Coq list functions are not tail recursive).
+    A batch that exceeds its time budget is split; a single case that does (the extracted model counts in unary in a few
+    places) is reported as UNMODELLED, i.e. left out of the comparison and counted, never turned into a verdict."""
     import tempfile
     os.makedirs(os.path.join(WORK, 'cases'), exist_ok=True)
     fd, path = tempfile.mkstemp(prefix='m_', suffix='.cases', dir=os.path.join(WORK, 'cases'))
@@ -218,8 +220,17 @@ def run_model(mode, cases, batch_timeout=900):
         for cid, fields in cases:
             f.write(cid + ' ' + ' '.join(fields) + '\n')
     try:
-        p = subprocess.run('ulimit -s unlimited; exec %s %s %s' % (MODELRUN, mode, path), shell=True,
-                           capture_output=True, text=True, timeout=batch_timeout)
+        try:
+            p = subprocess.run('ulimit -s unlimited; exec %s %s %s' % (MODELRUN, mode, path), shell=True,
+                               capture_output=True, text=True, timeout=batch_timeout)
+        except subprocess.TimeoutExpired:
+            if len(cases) == 1:
+                return {cases[0][0]: ['UNMODELLED model-timeout']}
+            half = len(cases) // 2
+            t = max(60, batch_timeout // 3)
+            res = run_model(mode, cases[:half], t)
+            res.update(run_model(mode, cases[half:], t))
+            return res
         blocks, order, ended = R.parse_blocks(p.stdout)
         if not ended:
             raise RuntimeError('model runner died: %s' % p.stderr[-500:])
